@@ -702,6 +702,227 @@ def _ic_check(inp):
     return fails
 
 
+# ---- AIC / BIC on synthetic models: parameters shared between individual parameters ---------------
+#
+# Two-compartment models (ADVAN3 TRANS4) written as NONMEM code.  Each individual parameter (CL, Q, V1, V2)
+# is a product of thetas - its own theta and/or one theta SHARED by several individual parameters - with or
+# without an exponential random effect; the residual error is proportional (estimated sigma) or has an
+# estimated theta as standard deviation (sigma 1 FIX).  The data set is written here (3 individuals with 2, 3
+# and 2 observation records), so the counts of the definitions are known by construction:
+#   estimated   = parameters without FIX
+#   random kind = estimated omegas and estimated thetas that enter an individual parameter carrying a random
+#                 effect (an eta whose variance is 0 FIX is not a random effect)
+#   fixed kind  = every other estimated parameter; each estimated parameter is of exactly one kind
+
+FID_CATEG = 'src/pharmpy/modeling/results.py:_categorize_parameters'
+C_CATEG = ('the mixed BIC puts every estimated parameter into exactly one class: random when it is a variance of a '
+           'random effect or enters an individual parameter that carries a random effect, otherwise fixed')
+SYN_SLOTS = ['CL', 'Q', 'V1', 'V2']
+SYN_OBS = [2, 3, 2]
+SYN_KINDS = [(own, shared, eta) for own in (True, False) for shared in (False, True) for eta in (False, True)
+             if own or shared]
+SYN_FIX = ['none', 'shared', 'omega', 'omega0', 'own']
+
+
+def _syn_write_data(d):
+    rows = ['ID TIME AMT WGT DV']
+    for i, nobs in enumerate(SYN_OBS, start=1):
+        rows.append(f'{i} 0 25 {1.5 + i} 0')
+        for k in range(nobs):
+            rows.append(f'{i} {2.0 + k} 0 {1.5 + i} {10 + k + i}')
+    path = os.path.join(d, 'syn.dta')
+    with open(path, 'w') as fh:
+        fh.write('\n'.join(rows) + '\n')
+    return path
+
+
+def _syn_layout(inp):
+    """numbering of the parameters of the model described by inp: slots = [[own, shared, eta] per CL, Q, V1, V2]"""
+    slots = inp['slots']
+    ntheta = 0
+    shared = None
+    if any(sh for _, sh, _ in slots):
+        ntheta += 1
+        shared = ntheta
+    own, eta = [], []
+    neta = 0
+    for o, _, _ in slots:
+        if o:
+            ntheta += 1
+        own.append(ntheta if o else None)
+    for _, _, e in slots:
+        if e:
+            neta += 1
+        eta.append(neta if e else None)
+    err_theta = None
+    if inp['err'] == 'theta_w':
+        ntheta += 1
+        err_theta = ntheta
+    return dict(ntheta=ntheta, shared=shared, own=own, eta=eta, neta=neta, err_theta=err_theta)
+
+
+def _syn_code(inp, datapath):
+    lay = _syn_layout(inp)
+    fix = inp['fix']
+    first_own = next((t for t in lay['own'] if t is not None), None)
+    lines = ['$PROBLEM syn', f'$DATA {datapath} IGNORE=@', '$INPUT ID TIME AMT WGT DV', '$SUBROUTINE ADVAN3 TRANS4',
+             '$PK']
+    for name, (o, sh, e), t, k in zip(SYN_SLOTS, inp['slots'], lay['own'], lay['eta']):
+        factors = []
+        if sh:
+            factors.append(f"THETA({lay['shared']})")
+        if o:
+            factors.append(f'THETA({t})')
+        if name in ('CL', 'Q'):
+            factors.append('WGT')
+        if e:
+            factors.append(f'EXP(ETA({k}))')
+        lines.append(f'{name} = ' + '*'.join(factors))
+    lines += ['S1 = V1', '$ERROR']
+    if lay['err_theta']:
+        lines += [f"W = THETA({lay['err_theta']})*F", 'Y = F + W*EPS(1)']
+    else:
+        lines += ['Y = F + F*EPS(1)']
+    for t in range(1, lay['ntheta'] + 1):
+        fixed = (fix == 'shared' and t == lay['shared']) or (fix == 'own' and t == first_own)
+        lines.append(f'$THETA (0,{0.5 + t / 10}){" FIX" if fixed else ""}')
+    for k in range(1, lay['neta'] + 1):
+        if k == 1 and fix == 'omega':
+            lines.append('$OMEGA 0.1 FIX')
+        elif k == 1 and fix == 'omega0':
+            lines.append('$OMEGA 0 FIX')
+        else:
+            lines.append(f'$OMEGA {0.1 * k}')
+    lines.append('$SIGMA 1 FIX' if lay['err_theta'] else '$SIGMA 0.02')
+    lines.append('$ESTIMATION METHOD=1 INTERACTION')
+    return '\n'.join(lines) + '\n'
+
+
+def _syn_facts(inp):
+    """the classes of the definition, as sets of ('theta', n) / ('omega', k) / ('sigma', 1)"""
+    lay = _syn_layout(inp)
+    fix = inp['fix']
+    first_own = next((t for t in lay['own'] if t is not None), None)
+    est = set()
+    for t in range(1, lay['ntheta'] + 1):
+        if not ((fix == 'shared' and t == lay['shared']) or (fix == 'own' and t == first_own)):
+            est.add(('theta', t))
+    for k in range(1, lay['neta'] + 1):
+        if not (k == 1 and fix in ('omega', 'omega0')):
+            est.add(('omega', k))
+    if not lay['err_theta']:
+        est.add(('sigma', 1))
+    rand = {p for p in est if p[0] == 'omega'}
+    for (o, sh, e), t, k in zip(inp['slots'], lay['own'], lay['eta']):
+        random_effect = e and not (k == 1 and fix == 'omega0')
+        if random_effect:
+            if o and ('theta', t) in est:
+                rand.add(('theta', t))
+            if sh and ('theta', lay['shared']) in est:
+                rand.add(('theta', lay['shared']))
+    return dict(est=est, rand=rand, fixd=est - rand, iivom={p for p in est if p[0] == 'omega'},
+                nids=len(SYN_OBS), nobs=sum(SYN_OBS), lay=lay)
+
+
+def _bicsyn_inputs(tier):
+    dom = []
+    nvar = 4 if tier == 'thorough' else 3
+    for kinds in itertools.product(SYN_KINDS, repeat=nvar):
+        slots = [list(k) for k in kinds] + [[True, False, False]] * (4 - nvar)
+        if not any(e for _, _, e in slots):
+            continue        # precondition: a mixed effects model (some random effect)
+        for err, fix in [('prop', 'none'), ('theta_w', 'none'), ('prop', 'shared'), ('prop', 'omega'),
+                         ('prop', 'omega0'), ('theta_w', 'own')]:
+            if fix == 'shared' and not any(sh for _, sh, _ in slots):
+                continue
+            if fix == 'own' and not any(o for o, _, _ in slots):
+                continue
+            dom.append(dict(slots=slots, err=err, fix=fix))
+    return dom
+
+
+def _bicsyn_check(inp):
+    import shutil
+    import tempfile
+
+    own_dir = None
+    datapath = _RK.get('syn_data')
+    if datapath is None or not os.path.exists(datapath):
+        own_dir = tempfile.mkdtemp(prefix='b_rank_syn_')
+        datapath = _syn_write_data(own_dir)
+    try:
+        return _bicsyn_check_at(inp, datapath)
+    finally:
+        if own_dir:
+            shutil.rmtree(own_dir, ignore_errors=True)
+
+
+def _bicsyn_check_at(inp, datapath):
+    from pharmpy.modeling import calculate_aic, calculate_bic, read_model_from_string
+
+    f = _syn_facts(inp)
+    code = _syn_code(inp, datapath)
+    tag = 'model ' + ' | '.join(ln for ln in code.split('\n') if ln[:1] != '$' or ln[:3] in ('$TH', '$OM', '$SI'))
+    m = read_model_from_string(code)
+    lay = f['lay']
+    names = m.parameters.names
+    assert len(names) == lay['ntheta'] + lay['neta'] + 1, names
+    label = {}
+    for t in range(1, lay['ntheta'] + 1):
+        label[('theta', t)] = names[t - 1]
+    for k in range(1, lay['neta'] + 1):
+        label[('omega', k)] = names[lay['ntheta'] + k - 1]
+    label[('sigma', 1)] = names[-1]
+    # reference self check against the parameter table and the data written above
+    assert {label[p] for p in f['est']} == {p.name for p in m.parameters if not p.fix}, (names, f['est'])
+    fails = []
+    ll = -3.5
+    ln_i, ln_o = math.log(f['nids']), math.log(f['nobs'])
+    want = {
+        'mixed': ll + len(f['rand']) * ln_i + len(f['fixd']) * ln_o,
+        'fixed': ll + len(f['est']) * ln_o,
+        'random': ll + len(f['est']) * ln_i,
+        'iiv': ll + len(f['iivom']) * ln_i,
+    }
+    show = {k: sorted(label[p] for p in f[k]) for k in ('rand', 'fixd')}
+    try:
+        got = calculate_aic(m, ll)
+        if not _close(got, ll + 2 * len(f['est'])):
+            fails.append((FID_AIC, C_AIC, f"{tag}: got {got}, formula {ll + 2 * len(f['est'])}"))
+    except Exception as e:
+        fails.append((FID_AIC, C_AIC, f'{tag}: raised {type(e).__name__}: {e}'))
+    for bt in ('mixed', 'fixed', 'random', 'iiv'):
+        try:
+            got = calculate_bic(m, ll, type=bt)
+            if not _close(got, want[bt]):
+                fails.append((FID_BIC, C_BIC[bt],
+                              f"{tag}: -2LL={ll}, {f['nids']} individuals, {f['nobs']} observations: got {got}, "
+                              f"formula {want[bt]} with random {show['rand']} fixed {show['fixd']}"))
+        except Exception as e:
+            fails.append((FID_BIC, C_BIC[bt], f'{tag}: raised {type(e).__name__}: {e}'))
+    try:
+        got = calculate_bic(m, ll)
+        if not _close(got, want['mixed']):
+            fails.append((FID_BIC, C_BIC_DEFAULT, f"{tag}: got {got}, mixed formula {want['mixed']}"))
+    except Exception as e:
+        fails.append((FID_BIC, C_BIC_DEFAULT, f'{tag}: raised {type(e).__name__}: {e}'))
+    try:
+        from pharmpy.modeling.results import _categorize_parameters
+    except ImportError:
+        _categorize_parameters = None
+    if _categorize_parameters is not None:
+        try:
+            fixedpars, randpars = _categorize_parameters(m)
+            gf = sorted(str(x) for x in fixedpars)
+            gr = sorted(str(x) for x in randpars)
+            if gf != show['fixd'] or gr != show['rand'] or len(gf) != len(set(gf)) or len(gr) != len(set(gr)):
+                fails.append((FID_CATEG, C_CATEG, f"{tag}: fixed {gf} random {gr}, by the definition fixed "
+                                                  f"{show['fixd']} random {show['rand']}"))
+        except Exception as e:
+            fails.append((FID_CATEG, C_CATEG, f'{tag}: raised {type(e).__name__}: {e}'))
+    return fails
+
+
 # ---- lrt functions ----------------------------------------------------------------------------
 
 C_L_CUT = 'cutoff = chi2.isf(alpha, df) for df>0, 0 for df==0, -chi2.isf(alpha, -df) for df<0, df = difference in parameter count'
@@ -1064,19 +1285,32 @@ def _misc_worker(task):
     """AIC/BIC, lrt and strictness cases: task = (kind, start, inputs)"""
     kind, start, inputs = task
     _rank_env()
-    fn = {'ic': _ic_check, 'lrt': _lrt_check, 'strict': _strict_check}[kind]
+    fn = {'ic': _ic_check, 'lrt': _lrt_check, 'strict': _strict_check, 'bicsyn': _bicsyn_check}[kind]
     col = _Collector()
-    for off, inp in enumerate(inputs):
-        col.cases += 1
-        col.nontrivial += 1
-        try:
-            fails = fn(inp)
-        except Exception as e:
-            fails = [('b_rank.py', 'checker error', f'{type(e).__name__}: {e}')]
-        if len(col.samples) < 1 and off == 3:
-            col.samples.append(kind + ':' + json.dumps(_js(inp))[:160])
-        for fid, clause, detail in fails:
-            col.fail((0, start + off), fid, clause, detail, kind, inp, 'bounded_rank_models_replay')
+    tmpdir = None
+    if kind == 'bicsyn':
+        import tempfile
+
+        tmpdir = tempfile.mkdtemp(prefix='b_rank_syn_')
+        _RK['syn_data'] = _syn_write_data(tmpdir)
+    try:
+        for off, inp in enumerate(inputs):
+            col.cases += 1
+            col.nontrivial += 1
+            try:
+                fails = fn(inp)
+            except Exception as e:
+                fails = [('b_rank.py', 'checker error', f'{type(e).__name__}: {e}')]
+            if len(col.samples) < 1 and off == 3:
+                col.samples.append(kind + ':' + json.dumps(_js(inp))[:160])
+            for fid, clause, detail in fails:
+                col.fail((0, start + off), fid, clause, detail, kind, inp, 'bounded_rank_models_replay')
+    finally:
+        if tmpdir:
+            import shutil
+
+            _RK.pop('syn_data', None)
+            shutil.rmtree(tmpdir, ignore_errors=True)
     return col.export()
 
 
@@ -1095,9 +1329,10 @@ def bounded_rank_models(tier):
     for part in _pool_map(_rank_worker_indexed, tasks):
         col.merge(part)
     misc = []
-    for kind, inputs in (('ic', _ic_inputs()), ('lrt', _lrt_inputs(tier)), ('strict', _strict_inputs(tier))):
-        pos = 0
-        for ch in _chunks(inputs, NPROC if kind != 'ic' else 4):
+    for kind, inputs in (('ic', _ic_inputs()), ('lrt', _lrt_inputs(tier)), ('strict', _strict_inputs(tier)),
+                         ('bicsyn', _bicsyn_inputs(tier))):
+        pos = 0 if kind != 'bicsyn' else 10 ** 7     # the synthetic models come after every earlier case
+        for ch in _chunks(inputs, {'ic': 4, 'bicsyn': 4 * NPROC}.get(kind, NPROC)):
             misc.append((kind, pos, ch))
             pos += len(ch)
     for part in _pool_map(_misc_worker, misc):
@@ -1110,7 +1345,12 @@ def bounded_rank_models(tier):
              f'<= {kmax - 1} for aic and bic fixed/random/iiv, <= 2 for bic mixed, cut-off None/3.84, penalties None/list; lrt: all ordered '
              f'<= 2 candidates x every parent map x p None/0.05/(0.05,0.01), multisets of 3 candidates x '
              f'parent-among-earlier maps{extra} (default p-values); '
-             f'strictness ""/AMD default with 6 statuses; calculate_aic/bic on 10 variants x 3 OFVs; lrt functions on all '
+             f'strictness ""/AMD default with 6 statuses; calculate_aic/bic on 10 variants x 3 OFVs and on synthetic '
+             f'two-compartment models: every assignment of 6 forms (own theta and/or a theta shared between the '
+             f'individual parameters, with/without eta) to {"CL, Q, V1, V2" if tier == "thorough" else "CL, Q, V1"} '
+             f'(at least one eta) x 6 error model / FIX patterns (proportional, theta as sd, shared theta FIX, first '
+             f'omega FIX, first omega 0 FIX, an own theta FIX) on a written data set of 3 individuals and 7 observations; '
+             f'lrt functions on all '
              f'25 parent/child pairs x 3 alphas x 25 OFV pairs, best_of_many <= {3 if tier == "thorough" else 2} children '
              f'x 5 OFVs each; is_strictness_fulfilled: all 17 documented atoms x 6 operators on synthetic results grids')
     return col.result(bound)
@@ -1146,7 +1386,7 @@ def bounded_rank_models_replay(rp):
         fails = _rank_lrtdf_check(inp) if inp.get('lrtdf') else _rank_check(inp)
         fails = [(c, d) for c, d in fails]
     else:
-        fn = {'ic': _ic_check, 'lrt': _lrt_check, 'strict': _strict_check}[kind]
+        fn = {'ic': _ic_check, 'lrt': _lrt_check, 'strict': _strict_check, 'bicsyn': _bicsyn_check}[kind]
         fails = [(c, d) for _, c, d in fn(inp)]
     for c, d in fails:
         if c == clause:
@@ -2976,6 +3216,301 @@ def _e2e_inputs(tier):
     return dom
 
 
+# ---- end to end on a synthetic run directory: several $TABLE files, EM-method phi files ------------
+#
+# A small one-compartment model is written as NONMEM code together with its data set, an ext file and the
+# output files under test; everything pharmpy is asked to report was written here, so the reference is
+# the writer's own input.
+
+C_E_TABS = ('read_modelfit_results on a run with several $TABLE files: predictions, residuals and derivatives hold '
+            'under each column name (PRED, IPRED, CIPREDI, CPRED / RES, WRES, CWRES / G and H columns) the numbers '
+            'written in that column of the table files, whatever columns the tables share and in whatever order '
+            'they list them')
+C_E_MU = ('read_modelfit_results on a run whose phi file has PHI/PHC columns (EM methods): individual_estimates are '
+          'ETA(i) = PHI(i) - MU_i with MU_i evaluated at the final estimates of the run (the model value for FIXed '
+          'parameters, the baseline covariates of the individual; PHI(i) itself when the model defines no MU_i), '
+          'individual_ofv and individual_estimates_covariance are the printed OBJ and PHC values; with ETA/ETC '
+          'columns the printed values are reported unchanged')
+C_E_MU_ID = ('individual_estimates from PHI columns subtract from each line the MU_i of the SAME individual (baseline '
+             'covariates matched by ID) when the phi file has no usable line for some individual of the data set')
+RUN_WGT = [2.5, 3.5, 4.5]          # baseline covariate of the individuals 1, 2, 3 of the written data set
+RUN_PRED = ['PRED', 'CIPREDI', 'CPRED', 'IPRED']
+RUN_RES = ['RES', 'WRES', 'CWRES']
+RUN_DERIV = {'G11': 'ETA_1', 'G21': 'ETA_2', 'H11': 'EPS_1'}
+RUN_COLS = ['ID', 'TIME', 'WGT', 'DV', 'PRED', 'CIPREDI', 'CPRED', 'IPRED', 'RES', 'WRES', 'CWRES', 'G11', 'G21', 'H11']
+RUN_APPENDED = ['DV', 'PRED', 'RES', 'WRES']
+
+
+def _run_write_data(d, no_obs=()):
+    """individuals listed in no_obs have a dose record only (NONMEM prints an all-zero phi line for them)"""
+    rows = ['ID TIME AMT WGT DV']
+    for i, (w, nobs) in enumerate(zip(RUN_WGT, SYN_OBS), start=1):
+        rows.append(f'{i} 0 25 {w} 0')
+        for k in range(0 if i in no_obs else nobs):
+            rows.append(f'{i} {2.0 + k} 0 {w} {10 + k + i}')
+    with open(os.path.join(d, 'syn.dta'), 'w') as fh:
+        fh.write('\n'.join(rows) + '\n')
+
+
+def _run_ext(labels, init, final, fixed, method):
+    """ext file: iteration 0 at the initial values, a last iteration and the final row at the final values, flags"""
+    tok = lambda x: '%.5E' % x  # noqa
+    rows = [(0, {lab: tok(init[lab]) for lab in labels}, OBJTOKENS[0]),
+            (35, {lab: tok(final[lab]) for lab in labels}, OBJTOKENS[2]),
+            (ITER_FINAL, {lab: tok(final[lab]) for lab in labels}, OBJTOKENS[2]),
+            (ITER_FIX, {lab: ('1.00000E+00' if lab in fixed else '0.00000E+00') for lab in labels},
+             '0.0000000000000000')]
+    return _render_ext([dict(number=1, method=method, file_order=labels, rows=rows, problem=1, sub=0)])
+
+
+def _run_cell(col, r):
+    """printed token of row r of a column: the same in every table that lists the column, different for
+    different columns"""
+    if col == 'ID':
+        return '%.4E' % (1 + r // 2)
+    k = RUN_COLS.index(col)
+    x = (k + 2) * 11.5 + r * 1.25
+    return '%.4E' % (-x if col in RUN_RES or col == 'G21' else x)
+
+
+def _run_file_columns(tab):
+    """columns of the file NONMEM writes for a $TABLE record: the listed items, with DV PRED RES WRES appended
+    (and PRED RES WRES taken out of the list) unless NOAPPEND"""
+    if tab['noappend']:
+        return list(tab['cols'])
+    return [c for c in tab['cols'] if c not in ('PRED', 'RES', 'WRES')] + RUN_APPENDED
+
+
+def _run_render_table(cols, nrow, number=1):
+    lines = ['TABLE NO.%3d' % number, ' ' + ''.join(c.ljust(12) for c in cols).rstrip()]
+    for r in range(nrow):
+        lines.append(''.join(_run_cell(c, r).rjust(12) for c in cols))
+    return '\n'.join(lines) + '\n'
+
+
+RUN_MODEL_HEAD = ['$PROBLEM synthetic run', '$DATA syn.dta IGNORE=@', '$INPUT ID TIME AMT WGT DV',
+                  '$SUBROUTINE ADVAN1 TRANS2']
+RUN_MODEL_ERROR = ['$ERROR', 'IPRED = F', 'Y = IPRED + IPRED*EPS(1)']
+
+
+def _runtab_check(inp):
+    import tempfile
+
+    from pharmpy.tools import read_modelfit_results
+
+    nrow = inp['nrow']
+    lines = RUN_MODEL_HEAD + ['$PK', 'CL = THETA(1)*EXP(ETA(1))', 'V = THETA(2)*EXP(ETA(2))', 'S1 = V'] + RUN_MODEL_ERROR
+    lines += ['$THETA (0,0.5)', '$THETA (0,1.5)', '$OMEGA 0.1', '$OMEGA 0.2', '$SIGMA 0.02',
+              '$ESTIMATION METHOD=1 INTERACTION']
+    files = []
+    for k, tab in enumerate(inp['tables'], start=1):
+        lines.append('$TABLE ' + ' '.join(tab['cols']) + (' NOAPPEND' if tab['noappend'] else '')
+                     + f' NOPRINT ONEHEADER FILE=tab{k}')
+        files.append((f'tab{k}', _run_file_columns(tab)))
+    labels = ['THETA1', 'THETA2', 'SIGMA(1,1)', 'OMEGA(1,1)', 'OMEGA(2,1)', 'OMEGA(2,2)']
+    init = dict(zip(labels, [0.5, 1.5, 0.02, 0.1, 0.0, 0.2]))
+    final = dict(zip(labels, [0.61, 1.72, 0.031, 0.12, 0.0, 0.23]))
+    code = '\n'.join(lines) + '\n'
+    tag = json.dumps(_js(inp)) + ' | ' + ' | '.join(ln for ln in lines if ln.startswith('$TABLE'))
+    with tempfile.TemporaryDirectory() as d:
+        _run_write_data(d)
+        with open(os.path.join(d, 'run1.mod'), 'w') as fh:
+            fh.write(code)
+        with open(os.path.join(d, 'run1.ext'), 'w') as fh:
+            fh.write(_run_ext(labels, init, final, ['OMEGA(2,1)'], METHODS[0]))
+        for name, cols in files:
+            with open(os.path.join(d, name), 'w') as fh:
+                fh.write(_run_render_table(cols, nrow))
+        try:
+            res = read_modelfit_results(os.path.join(d, 'run1.mod'))
+            got = {'predictions': res.predictions, 'residuals': res.residuals, 'derivatives': res.derivatives}
+        except Exception as e:
+            return [(FID_PARSE, C_E_TABS, f'{tag}: raised {type(e).__name__}: {e}')]
+    written = [c for _, cols in files for c in cols]
+    want = {
+        'predictions': {c: c for c in RUN_PRED if c in written},
+        'residuals': {c: c for c in RUN_RES if c in written},
+        'derivatives': {RUN_DERIV[c]: c for c in RUN_DERIV if c in written},
+    }
+    bad = None
+    for field, cols in want.items():
+        df = got[field]
+        if not cols:
+            if df is not None and len(df.columns):
+                bad = f'{field} has columns {list(df.columns)} although no table lists one'
+            continue
+        if df is None or sorted(df.columns) != sorted(cols):
+            bad = f'{field} has columns {None if df is None else list(df.columns)}, the tables list {sorted(cols.values())}'
+            break
+        if len(df) != nrow:
+            bad = f'{field} has {len(df)} rows, the tables {nrow}'
+            break
+        for name, col in cols.items():
+            vals = [float(x) for x in df[name].tolist()]
+            wr = [float(_run_cell(col, r)) for r in range(nrow)]
+            if not all(_close(a, b, 0, 0) for a, b in zip(vals, wr)):
+                bad = f'{field}[{name}] is {vals}, column {col} was written as {wr}'
+                break
+        if bad:
+            break
+    if bad:
+        return [(FID_PARSE, C_E_TABS, f'{tag}: {bad} | files: ' + '; '.join(f'{n}: {" ".join(c)}' for n, c in files))]
+    return []
+
+
+def _runtab_inputs(tier):
+    thorough = tier == 'thorough'
+    prefixes = [[], ['ID'], ['ID', 'TIME'], ['TIME', 'ID']]
+    bodies = [[], ['IPRED'], ['CWRES'], ['CPRED'], ['PRED'], ['WGT'], ['G11'], ['IPRED', 'CWRES'], ['CWRES', 'IPRED'],
+              ['WGT', 'IPRED'], ['PRED', 'IPRED'], ['IPRED', 'RES'], ['CIPREDI', 'CPRED'], ['H11', 'G21', 'G11']]
+
+    def options(ps, bs):
+        out = []
+        for p in ps:
+            for b in bs:
+                for noappend in (False, True):
+                    if noappend and not (p + b):
+                        continue          # a table without any column
+                    out.append(dict(cols=p + b, noappend=noappend))
+        return out
+
+    full = options(prefixes, bodies)
+    if thorough:
+        first = options([[], ['ID', 'TIME']], bodies)
+    else:
+        first = [dict(cols=c, noappend=na) for c, na in (
+            (['IPRED'], False), (['WGT', 'CWRES'], True), (['ID', 'TIME'], False), (['ID', 'TIME'], True),
+            (['ID', 'TIME', 'IPRED'], False), (['ID', 'TIME', 'IPRED'], True), (['ID', 'TIME', 'PRED', 'IPRED'], False),
+            (['ID', 'TIME', 'WGT', 'CWRES'], True))]
+    dom = [dict(tables=[t], nrow=4) for t in full]
+    dom += [dict(tables=[a, b], nrow=4) for a in first for b in full]
+    t1 = options([['ID', 'TIME']], [[], ['IPRED']])[:3]
+    t2 = options([['ID', 'TIME'], ['ID']], [['CWRES'], ['WGT', 'CPRED']]) if not thorough else first
+    t3 = options([[], ['ID', 'TIME'], ['TIME', 'ID']], [['CIPREDI'], ['G11', 'IPRED'], ['H11']])
+    if not thorough:
+        t3 = [t for t in t3 if t['noappend']]
+    dom += [dict(tables=[a, b, c], nrow=3) for a in t1 for b in t2 for c in t3]
+    return dom
+
+
+RUN_MU_FORMS = ['none', 'lin', 'log', 'cov', 'prod']
+RUN_MU_FIX = ['none', 'first', 'cov']
+
+
+def _runmu_check(inp):
+    import tempfile
+
+    from pharmpy.tools import read_modelfit_results
+
+    forms, fix, phc = inp['forms'], inp['fix'], inp['phc']
+    # THETA(1), THETA(2): typical values of CL and V; THETA(3): covariate coefficient / common factor
+    init = {'THETA1': 0.5, 'THETA2': 1.5, 'THETA3': 0.75, 'SIGMA(1,1)': 0.02, 'OMEGA(1,1)': 0.1, 'OMEGA(2,1)': 0.0,
+            'OMEGA(2,2)': 0.2}
+    final = {'THETA1': 0.61, 'THETA2': 1.72, 'THETA3': 0.93, 'SIGMA(1,1)': 0.031, 'OMEGA(1,1)': 0.12, 'OMEGA(2,1)': 0.0,
+             'OMEGA(2,2)': 0.23}
+    fixed = ['OMEGA(2,1)'] + {'none': [], 'first': ['THETA1'], 'cov': ['THETA3']}[fix]
+    for lab in fixed:
+        final[lab] = init[lab]           # a FIXed parameter stays at its value
+    labels = ['THETA1', 'THETA2', 'THETA3', 'SIGMA(1,1)', 'OMEGA(1,1)', 'OMEGA(2,1)', 'OMEGA(2,2)']
+    pk = ['$PK']
+    for i, (form, par) in enumerate(zip(forms, ('CL', 'V')), start=1):
+        mu = {'lin': f'THETA({i})', 'log': f'LOG(THETA({i}))', 'cov': f'LOG(THETA({i})) + THETA(3)*LOG(WGT/3)',
+              'prod': f'LOG(THETA({i})*THETA(3))'}.get(form)
+        if mu is None:
+            pk.append(f'{par} = THETA({i})*THETA(3)*EXP(ETA({i}))')
+        else:
+            pk += [f'MU_{i} = {mu}', f'{par} = EXP(MU_{i} + ETA({i}))']
+    pk.append('S1 = V')
+
+    def ref_mu(form, i, wgt):
+        th, th3 = final[f'THETA{i}'], final['THETA3']
+        return {'none': 0.0, 'lin': th, 'log': math.log(th), 'cov': math.log(th) + th3 * math.log(wgt / 3),
+                'prod': math.log(th * th3)}[form]
+
+    lines = RUN_MODEL_HEAD + pk + RUN_MODEL_ERROR
+    for lab in ('THETA1', 'THETA2', 'THETA3'):
+        lines.append(f'$THETA (0,{init[lab]})' + (' FIX' if lab in fixed else ''))
+    lines += ['$OMEGA 0.1', '$OMEGA 0.2', '$SIGMA 0.02']
+    lines.append('$ESTIMATION METHOD=SAEM INTERACTION NBURN=200 NITER=100' if phc
+                 else '$ESTIMATION METHOD=1 INTERACTION')
+    method = METHODS[3] if phc else METHODS[0]
+    phi = _phi_spec(dict(netas=2, nind=3, rows=inp['rows'], phc=phc, vs=inp['vs']), 1)
+    phi['rows'] = [(sno, sno, cells, obj) for sno, _, cells, obj in phi['rows']]     # individuals 1, 2, 3
+    e, c = ('PHI', 'PHC') if phc else ('ETA', 'ETC')
+    tag = json.dumps(_js(inp)) + ' | ' + ' | '.join(pk[1:-1])
+    clause = C_E_MU
+    with tempfile.TemporaryDirectory() as d:
+        _run_write_data(d, no_obs=[k + 1 for k, kind in enumerate(inp['rows']) if kind == 'allzero'])
+        with open(os.path.join(d, 'run1.mod'), 'w') as fh:
+            fh.write('\n'.join(lines) + '\n')
+        with open(os.path.join(d, 'run1.ext'), 'w') as fh:
+            fh.write(_run_ext(labels, init, final, fixed, method))
+        with open(os.path.join(d, 'run1.phi'), 'w') as fh:
+            fh.write(_render_phi([phi]))
+        try:
+            res = read_modelfit_results(os.path.join(d, 'run1.mod'))
+            iofv, ie, iec = res.individual_ofv, res.individual_estimates, res.individual_estimates_covariance
+            pe = res.parameter_estimates
+        except Exception as ex:
+            if phc and 'cov' in forms and any(k == 'allzero' for k in inp['rows']):
+                clause = C_E_MU_ID
+            return [(FID_PARSE, clause, f'{tag}: raised {type(ex).__name__}: {ex} | phi:\n{_render_phi([phi])}')]
+    keep = [r for r in phi['rows'] if any(float(v) != 0 for v in r[2].values()) or float(r[3]) != 0]
+    ids = [r[1] for r in keep]
+    if len(keep) < len(phi['rows']) and phc and 'cov' in forms:
+        clause = C_E_MU_ID
+    want = {}
+    for r in keep:
+        for i, form in enumerate(forms, start=1):
+            printed = float(r[2][f'{e}({i})'])
+            want[(r[1], i)] = printed - ref_mu(form, i, RUN_WGT[r[1] - 1]) if phc else printed
+    bad = None
+    try:
+        if iofv is None or ie is None or iec is None:
+            bad = 'individual results missing'
+        elif [int(x) for x in ie.index] != ids or [int(x) for x in iofv.index] != ids or [int(x) for x in iec.index] != ids:
+            bad = f'individuals {list(ie.index)} / {list(iofv.index)} / {list(iec.index)}, expected {ids}'
+        elif len(ie.columns) != 2:
+            bad = f'columns {list(ie.columns)}'
+        else:
+            for k, r in enumerate(keep):
+                for i in (1, 2):
+                    g = float(ie.iloc[k, i - 1])
+                    if not _close(g, want[(r[1], i)], 1e-9, 1e-9):
+                        bad = bad or (f'ETA({i}) of individual {r[1]} is {g}, expected {want[(r[1], i)]} = printed '
+                                      f'{r[2][f"{e}({i})"]}' + (f' - MU_{i} at the final estimates' if phc else ''))
+                if not _close(iofv.iloc[k], float(r[3]), 0, 0):
+                    bad = bad or f'individual_ofv of {r[1]} is {iofv.iloc[k]}, printed {r[3]}'
+                m = iec.iloc[k]
+                for a in (1, 2):
+                    for b in range(1, a + 1):
+                        w = float(r[2][f'{c}({a},{b})'])
+                        if not (_close(m.iloc[a - 1, b - 1], w, 0, 0) and _close(m.iloc[b - 1, a - 1], w, 0, 0)):
+                            bad = bad or f'covariance ({a},{b}) of individual {r[1]} is {m.iloc[a - 1, b - 1]}, printed {w}'
+    except Exception as ex:
+        bad = f'raised {type(ex).__name__}: {ex}'
+    if bad:
+        return [(FID_PARSE, clause, f'{tag}: {bad}; final estimates {None if pe is None else pe.to_dict()} | phi:\n'
+                                    f'{_render_phi([phi])}')]
+    return []
+
+
+def _runmu_inputs(tier):
+    dom = []
+    thorough = tier == 'thorough'
+    for forms in itertools.product(RUN_MU_FORMS, repeat=2):
+        for fix in RUN_MU_FIX:
+            for phc in (True, False):
+                if not phc and not thorough and fix != 'none':
+                    continue
+                for rows in ([['full'] * 3, ['full', 'allzero', 'full']] + ([['fo', 'full', 'eta_fix_last']] if thorough else [])):
+                    if rows != ['full'] * 3 and not (thorough or fix == 'none'):
+                        continue
+                    for vs in ((0, 1) if thorough else (0,)):
+                        dom.append(dict(forms=list(forms), fix=fix, phc=phc, rows=rows, vs=vs))
+    return dom
+
+
 NM_KINDS = {
     'ext': (_ext_check, _ext_inputs, 16),
     'phi': (_phi_check, _phi_inputs, 6),
@@ -2984,6 +3519,8 @@ NM_KINDS = {
     'imath': (_imath_check, _imath_inputs, 1),
     'json': (_json_check, _json_inputs, 4),
     'e2e': (_e2e_check, _e2e_inputs, 8),
+    'runtab': (_runtab_check, _runtab_inputs, 32),
+    'runmu': (_runmu_check, _runmu_inputs, 4),
 }
 
 
@@ -3017,10 +3554,11 @@ def bounded_nonmem_tables(tier):
             part = inputs[c::nch]
             if part:
                 tasks.append((kind, part))
-    tasks.sort(key=lambda t: 0 if t[0] in ('e2e', 'ext') else 1)
+    tasks.sort(key=lambda t: 0 if t[0] in ('e2e', 'ext', 'runtab') else 1)
     for part in _pool_map(_nm_worker, tasks):
         col.merge(part)
     th = tier == 'thorough'
+    ntab = {k: sum(1 for x in _runtab_inputs(tier) if len(x['tables']) == k) for k in (1, 2, 3)}
     bound = (f'ext files: <= 3 thetas x (1 omega | 2x2 omega block) x sigma, 4 FIX patterns, 5 iteration lists, all 32 '
              f'combinations of the special rows (-1000000000 / -1000000001,-2 / -3 / -4,-5 / -6,-7,-8), 7 method titles, '
              f'{3 if th else 1} value set(s), plus files with {3 if th else 2} estimation steps; phi: <= 3 etas x <= 3 individuals x '
@@ -3034,7 +3572,14 @@ def bounded_nonmem_tables(tier):
              f'{60 if th else 6}; JSON: all subsets of 5 field groups x short/17-digit floats; pheno end-to-end: 8 cov/cor/coi file '
              f'subsets x 4 FIX patterns, plus cancelling rows in each file subset ({"4 FIX patterns x every file x 5 rows" if th else "2 FIX patterns, first file, 1-2 rows"}) '
              f'and a rendered phi file with {"every pair of line kinds" if th else "6 line kinds alone and between two full lines"} '
-             f'(individual_ofv / individual_estimates / individual_estimates_covariance)')
+             f'(individual_ofv / individual_estimates / individual_estimates_covariance); synthetic run directories '
+             f'(written model, data, ext): 1-3 $TABLE files whose column lists are a prefix (none, ID, ID TIME, TIME ID) plus '
+             f'one of 14 bodies over IPRED CWRES CPRED PRED CIPREDI RES WGT G11 G21 H11, with/without NOAPPEND: every single '
+             f'table, {"every first table with prefix none / ID TIME" if th else "8 first tables"} x every second table '
+             f'({ntab[2]} layouts), and {ntab[3]} three-table layouts (predictions / residuals / derivatives per column); '
+             f'phi files of a mu-referenced model: every pair of 5 MU forms (none, theta, log theta, log theta + theta*log '
+             f'covariate, log of a product) x 3 FIX patterns x PHI/PHC | ETA/ETC columns with final estimates different '
+             f'from the initial ones, also with an individual without observations')
     return col.result(bound)
 
 
